@@ -475,7 +475,9 @@ pub fn materialise(l: &Layout, root: &Path) -> Scene {
     write_projects(l, root, None);
     let (meta, input, output) = resolve_scene(l, root);
     let rec = record_path(root, l, &meta);
-    let ref_input = std::fs::canonicalize(root).ok().and_then(|r| expected_inputs(l.name, &r));
+    // hand-written where inputs are inherited, otherwise the reference's own reading of the YAML text
+    let ref_input = std::fs::canonicalize(root).ok().and_then(|r| expected_inputs(l.name, &r).or_else(|| ref_resolve(l, &r, None)));
+    assert!(ref_input.is_some(), "MACHINERY: the reference cannot read layout {}", l.name);
     Scene { root: root.to_path_buf(), meta, input, output, rec, executions: 0, record: None, ref_input }
 }
 
@@ -490,7 +492,8 @@ pub fn apply_op_scene(sc: &mut Scene, l: &Layout, o: &Op) -> bool {
         sc.meta = meta;
         sc.input = input;
         sc.output = output;
-        sc.ref_input = None;
+        sc.ref_input = std::fs::canonicalize(&root).ok().and_then(|r| ref_resolve(l, &r, Some(alt)));
+        assert!(sc.ref_input.is_some(), "MACHINERY: the reference cannot read re-declaration {} of layout {}", i, l.name);
         return !same;
     }
     let root = sc.root.clone();
@@ -919,6 +922,60 @@ pub fn expected_inputs(layout: &str, r: &Path) -> Option<(FileSpec, CmdSpec)> {
     })
 }
 
+/// The reference's own reading of the project files: the effective input of the target under test, computed from
+/// the YAML text alone (own entries in order, then for every `X.output` / `P::X.output` entry the output entries of
+/// X with X's project directory). Nothing of zinoma's configuration layer is used; `root_alt` replaces the root
+/// project's targets (a re-declaration).
+pub fn ref_resolve(l: &Layout, r: &Path, root_alt: Option<&str>) -> Option<(FileSpec, CmdSpec)> {
+    use serde_yaml::Value;
+    let mut projs: Vec<(PathBuf, Option<&str>, Value)> = vec![];
+    for (sub, name, text) in &l.projects {
+        let text: &str = if sub.is_empty() { root_alt.unwrap_or(text) } else { text };
+        let v: Value = serde_yaml::from_str(text).ok()?;
+        projs.push((if sub.is_empty() { r.to_path_buf() } else { r.join(sub) }, *name, v));
+    }
+    let key = |s: &str| Value::String(s.to_string());
+    let entries = |body: &Value, k: &str| -> Vec<Value> { body.as_mapping().and_then(|m| m.get(&key(k))).and_then(|v| v.as_sequence()).cloned().unwrap_or_default() };
+    let mut files: FileSpec = vec![];
+    let mut cmds: CmdSpec = vec![];
+    fn add_entry(e: &serde_yaml::Value, dir: &Path, files: &mut FileSpec, cmds: &mut CmdSpec) -> Option<()> {
+        let m = e.as_mapping()?;
+        let key = |s: &str| serde_yaml::Value::String(s.to_string());
+        if let Some(c) = m.get(&key("cmd_stdout")) {
+            cmds.push((c.as_str()?.to_string(), dir.to_path_buf()));
+        } else {
+            let paths: Vec<PathBuf> = m.get(&key("paths"))?.as_sequence()?.iter().map(|p| dir.join(p.as_str().unwrap_or(""))).collect();
+            let exts: Option<Vec<String>> = m.get(&key("extensions")).and_then(|v| v.as_sequence()).map(|s| s.iter().map(|e| e.as_str().unwrap_or("").to_string()).collect());
+            files.push((paths, exts));
+        }
+        Some(())
+    }
+    // the target under test lives in the root project (projs[0])
+    let (tproj, tname) = match l.target.split_once("::") {
+        Some((p, t)) => (projs.iter().position(|x| x.1 == Some(p))?, t),
+        None => (0, l.target),
+    };
+    let body = projs[tproj].2.as_mapping()?.get(&key(tname))?.clone();
+    for e in entries(&body, "input") {
+        if let Some(sref) = e.as_str() {
+            let x = sref.strip_suffix(".output")?;
+            let (pi, xn) = match x.split_once("::") {
+                Some((p, t)) => (projs.iter().position(|q| q.1 == Some(p))?, t),
+                None => (tproj, x),
+            };
+            let xb = projs[pi].2.as_mapping()?.get(&key(xn))?.clone();
+            let dir = projs[pi].0.clone();
+            for oe in entries(&xb, "output") {
+                add_entry(&oe, &dir, &mut files, &mut cmds)?;
+            }
+        } else {
+            let dir = projs[tproj].0.clone();
+            add_entry(&e, &dir, &mut files, &mut cmds)?;
+        }
+    }
+    Some((files, cmds))
+}
+
 fn spec_of(res: &Resources) -> (FileSpec, CmdSpec) {
     (
         res.files.iter().map(|f| (f.paths.iter().map(|p| PathBuf::from(p.as_os_str().to_os_string())).collect(), f.extensions.as_ref().map(|e| e.iter().cloned().collect()))).collect(),
@@ -940,6 +997,30 @@ pub fn check_c13(rep: &mut Report) {
         let files: Vec<(Vec<PathBuf>, Option<Vec<String>>)> = sc.input.files.iter().map(|f| (f.paths.iter().map(|p| PathBuf::from(p.as_os_str().to_os_string())).collect(), f.extensions.as_ref().map(|e| e.iter().cloned().collect()))).collect();
         let cmds: Vec<(String, PathBuf)> = sc.input.cmds.iter().map(|c| (c.cmd.clone(), PathBuf::from(c.dir.as_os_str().to_os_string()))).collect();
         let (want_files, want_cmds) = expected_inputs(l.name, &r).unwrap_or_else(|| panic!("MACHINERY: no expectation written for layout {}", l.name));
+        // the two references (hand-written table, reading of the YAML text) must agree with each other
+        match ref_resolve(&l, &r, None) {
+            Some((mut rf, mut rc)) => {
+                let (mut wf, mut wc) = (want_files.clone(), want_cmds.clone());
+                // (the table spells extensions with their dot)
+                for x in rf.iter_mut() {
+                    if let Some(es) = x.1.as_mut() {
+                        for e in es.iter_mut() {
+                            if !e.starts_with('.') {
+                                *e = format!(".{}", e);
+                            }
+                        }
+                    }
+                }
+                rf.sort();
+                rc.sort();
+                wf.sort();
+                wc.sort();
+                if rf != wf || rc != wc {
+                    rep.machinery_errors.push(format!("layout {}: the reference's reading of the YAML text {:?} {:?} differs from the hand-written expectation {:?} {:?}", l.name, rf, rc, wf, wc));
+                }
+            }
+            None => rep.machinery_errors.push(format!("layout {}: the reference cannot read the YAML text", l.name)),
+        }
         rep.add_u64("transitions", 1);
         if files != want_files || cmds != want_cmds {
             rep.violation(format!("inherited-input-differs-on-disk [layout={}]", l.name), format!("layout {}: effective input files {:?} cmds {:?}\nexpected files {:?} cmds {:?}", l.name, files, cmds, want_files, want_cmds), json!({"engine": "seqcheck", "check": "C13", "layout": l.name}));
